@@ -34,16 +34,33 @@ func init() {
 		if err := os.MkdirAll(dirs[0], 0o755); err != nil {
 			return nil, err
 		}
+		symlinks := boolv(req, "symlinks")
 		for i, l := range levels {
 			m := l.(map[string]any)
 			if boolv(m, "regalDir") {
-				_ = os.MkdirAll(filepath.Join(dirs[i], ".regal"), 0o755)
+				target := filepath.Join(dirs[i], ".regal")
+				if symlinks {
+					// the directory lives elsewhere (a shared configuration) and is linked into place
+					target = filepath.Join(root, "store", "d"+string(rune('0'+i)))
+				}
+				_ = os.MkdirAll(target, 0o755)
 				if boolv(m, "configYaml") {
-					_ = os.WriteFile(filepath.Join(dirs[i], ".regal", "config.yaml"), []byte("rules: {}\n"), 0o600)
+					_ = os.WriteFile(filepath.Join(target, "config.yaml"), []byte("rules: {}\n"), 0o600)
+				}
+				if symlinks {
+					_ = os.Symlink(target, filepath.Join(dirs[i], ".regal"))
 				}
 			}
 			if boolv(m, "regalYaml") {
-				_ = os.WriteFile(filepath.Join(dirs[i], ".regal.yaml"), []byte("rules: {}\n"), 0o600)
+				target := filepath.Join(dirs[i], ".regal.yaml")
+				if symlinks {
+					_ = os.MkdirAll(filepath.Join(root, "store"), 0o755)
+					target = filepath.Join(root, "store", "f"+string(rune('0'+i))+".yaml")
+				}
+				_ = os.WriteFile(target, []byte("rules: {}\n"), 0o600)
+				if symlinks {
+					_ = os.Symlink(target, filepath.Join(dirs[i], ".regal.yaml"))
+				}
 			}
 		}
 		start := dirs[0]
